@@ -40,7 +40,7 @@ pub static PROP: Prop = Prop {
     ],
     profiles: Profiles::Strict,
     cases: |t| t.pick(2 * EXH + 6_000, 2 * EXH + 400_000),
-    budget_s: |t| t.pick(45, 500),
+    budget_s: |t| t.pick(60, 900),
     run,
     min_nontrivial: 200,
     required_counters: &[
